@@ -14,7 +14,7 @@ def run(run):
     run.rule = ('cases = GraphSM behaviours emitted by TLC; replayed step by step; non-trivial = at least two graph '
                 'actions; distinct by action sequence')
     run.assumptions = ['full names of user-added nodes are unique (asset-less nodes are named by their id)']
-    gsm.mc_slice(run, 'C09', 6 if quick else 8, depth=7 if quick else 9, must=('Generate', 'Regenerate', 'AddNode', 'RemoveNode', 'Prune', 'Analyse'))
+    gsm.mc_slice(run, 'C09', 6, depth=7, must=('Generate', 'Regenerate', 'AddNode', 'RemoveNode', 'Prune', 'Analyse'))
     gsm.bfs_slice(run, 'C09', 4 if quick else 5, keep=KEEP)
     # structural edits on a copy and on a loaded graph (both slots probed after every step)
     gsm.bfs_slice(run, 'C09L', 5 if quick else 6, keep=KEEP)
@@ -25,3 +25,4 @@ def run(run):
         from checks import c05
         run.want_graph_traces = True
         c05.repo_suite_traces(run)
+        gsm.mc_slice(run, 'C09', 8, depth=9, must=('Generate', 'Regenerate', 'AddNode', 'RemoveNode', 'Prune', 'Analyse'))      # larger design check last
